@@ -79,7 +79,7 @@ type Peer struct {
 	reqIndex int
 	perKind  map[string]int
 	fired    map[int]bool
-	refused  [][]byte // requests that are refused whenever they come again (FaultFailSame)
+	refused  [][]byte        // requests that are refused whenever they come again (FaultFailSame)
 	noKind   map[string]bool // request kinds that are refused from now on (FaultFailKind)
 }
 
